@@ -465,6 +465,7 @@ func Check(prop, tier string, nworkers int) int {
 	}
 	total := sim.NewStats()
 	total.MaxSamp = 5
+	total.SetCap = 6_000_000
 	var viols []foundViolation
 	unitsDone := 0
 	watchdog := time.Duration(secs*4+300) * time.Second
@@ -577,6 +578,11 @@ func Check(prop, tier string, nworkers int) int {
 	dsets := map[string]int{}
 	for k := range total.Sets {
 		dsets[k] = total.SetSize(k)
+	}
+	for k := range total.Counters {
+		if strings.HasPrefix(k, "distinct_set_saturated.") {
+			cov["distinct_note"] = "distinct counts are lower bounds: a worker remembers at most 600000 hashes per set, the coordinator 6000000"
+		}
 	}
 	cov["faults_fired"] = fired
 	cov["probes"] = probes
